@@ -587,6 +587,11 @@ impl NamespaceResolver {
     ///
     /// [namespace binding]: https://www.w3.org/TR/xml-names11/#dt-NSDecl
     pub fn pop(&mut self) {
+        // An end tag that closes nothing (possible when `allow_unmatched_ends` is set)
+        // has no scope to end: never go below the level of the reserved bindings
+        if self.nesting_level == 0 {
+            return;
+        }
         self.nesting_level -= 1;
         let current_level = self.nesting_level;
         // from the back (most deeply nested scope), look for the first scope that is still valid
